@@ -30,6 +30,23 @@ class LeanDevice(object):
         if r != 'ok':
             raise lean.LeanError('driver rejected device line: %s -> %s' % (dev_line[:120], r))
 
+    def faults(self, plan):
+        """Install a fault plan on the current device: [(k, 'c', code) | (k, 's', n)], k counts the
+        requests from now on (`c`: request k is answered with the bare completion code, unprocessed;
+        `s`: write request k stores and acknowledges only its first n data bytes)."""
+        spec = ' '.join('%d:%s:%d' % (int(k), t, int(v)) for k, t, v in plan) or '-'
+        r = self.drv.ask('faults ' + spec)
+        if r != 'ok':
+            raise lean.LeanError('driver rejected fault plan: %s -> %s' % (spec, r))
+
+    def snap(self):
+        """The model's `run` starts from the device as it is now (one step of a history)."""
+        if self.drv.ask('snap') != 'ok':
+            raise lean.LeanError('driver rejected snap')
+
+    def dump(self):
+        return self.drv.ask('dump')
+
     def request(self, netfn, cmd, payload):
         if netfn != NETFN_STORAGE:
             return b'\xc1'
